@@ -12,5 +12,6 @@ MCSeeds == {
 }
 MCIds == 1..3
 MCOps == {"New", "Add", "IAdd", "AddRefused", "IAddRefused", "ForeignRefused", "Copy"}
+MCSliceArgs == {<<1, NoneIx>>, <<NoneIx, -1>>, <<1, 3>>}
 MCScalars == {<<2, 1, "pyint">>}
 =============================================================================
